@@ -29,17 +29,17 @@ def run(patch: Path):
 
 
 def main():
-    root = Path(sys.argv[1]) if len(sys.argv) > 1 else Path("/tmp/benign")
-    patches = sorted(root.glob("**/patch_*.diff"))
+    root = Path(sys.argv[1]) if len(sys.argv) > 1 else Path("/verif/benign")
+    patches = sorted(root.glob("**/*.diff"))
     only = sys.argv[2:] 
     if only:
         patches = [p for p in patches if any(o in p.name for o in only)]
     bad = 0
-    with ThreadPoolExecutor(5) as ex:
+    with ThreadPoolExecutor(8) as ex:
         for patch, res in ex.map(run, patches):
             if res:
                 bad += 1
-            print(patch.parent.parent.name, patch.name, "ALARM " + json.dumps(res) if res else "silent")
+            print(patch.name, "ALARM " + json.dumps(res) if res else "silent")
     print(f"benign patches: {len(patches)}  with alarms: {bad}")
 
 
